@@ -173,7 +173,13 @@ class Interp(Engine):
         return P(BOOL, res[0] if len(res) == 1 else z3.And(res))
 
     def ev_Lambda(self, n):
-        return Fun("lambda", node=n, closure=dict(self.st.vars), module=self.module)
+        # default values are evaluated when the lambda is created (Python semantics)
+        a = n.args
+        names = [p.arg for p in a.args]
+        defaults = {}
+        for p, d in zip(names[len(names) - len(a.defaults):], a.defaults):
+            defaults[p] = self.ev(d)
+        return Fun("lambda", node=n, closure=dict(self.st.vars), module=self.module, defaults=defaults)
 
     def ev_Attribute(self, n):
         base = self.ev(n.value)
@@ -270,6 +276,8 @@ class Interp(Engine):
 
     stepwise = None
     stepwise_facts = []
+    stepwise_chain = {}
+    stepwise_ctx = ()
 
     def exec_stmt(self, s):
         m = getattr(self, "st_" + type(s).__name__, None)
@@ -288,18 +296,25 @@ class Interp(Engine):
                 continue
             # local obligation: only the facts introduced by this statement are needed
             saved_pc = self.st.pc
-            self.st.pc = saved_pc[npc:]
+            a_, b_ = getattr(self, "inv_pc_range", (0, 0))
+            # facts available to the local obligation: the invariant assumed at the start of the iteration, the
+            # equalities established by earlier steps, and what this statement introduced
+            if i in self.stepwise_ctx:
+                self.st.pc = saved_pc[a_:b_] + list(self.stepwise_chain.get(i, [])) + saved_pc[npc:]
+            else:
+                self.st.pc = saved_pc[npc:]
             try:
                 self.emit("%s#stepwise.%d[%s]" % (self.cur_func, i, e[:30]), a == b, meta={"kind": "loop-step"})
             finally:
                 self.st.pc = saved_pc
             self.stepwise_facts.append(a == b)
+            self.stepwise_chain.setdefault(i, []).append(a == b)
         return r
 
     def stepwise_value(self, e):
         try:
             self.spec_mode += 1
-            self.spec_envs.append({})
+            self.spec_envs.append({"entry_" + k_: v_ for k_, v_ in getattr(self, "entry_env", {}).items()})
             try:
                 return self.term(self.ev(ast.parse(e, mode="eval").body))
             finally:
